@@ -46,13 +46,9 @@ theorem orbitMask_testBit (cap : Nat) : ∀ (k cur mask t : Nat),
 def ProbeCovers (cap : Nat) : Prop :=
   (∀ s, s < cap → iter cap cap s = s) ∧ (∀ s t, s < cap → t < cap → ∃ k, k < cap ∧ iter cap k s = t)
 
-theorem probeCheck_sound {cap : Nat} (h : probeCheck cap = true) : ProbeCovers cap := by
-  simp only [probeCheck, Bool.and_eq_true, beq_iff_eq] at h
-  obtain ⟨hclose, hmask⟩ := h
-  have hreach : ∀ t, t < cap → ∃ i, i < cap ∧ iter cap i 0 = t := by
-    intro t ht
-    have := (orbitMask_testBit cap cap 0 0 t).mp (by rw [hmask, Nat.testBit_two_pow_sub_one]; simpa using ht)
-    simpa using this
+/-- it is enough that the orbit of cell 0 closes after `cap` steps and reaches every cell -/
+theorem probeCovers_of_zero {cap : Nat} (hclose : iter cap cap 0 = 0)
+    (hreach : ∀ t, t < cap → ∃ i, i < cap ∧ iter cap i 0 = t) : ProbeCovers cap := by
   have hcyc : ∀ s, s < cap → iter cap cap s = s := by
     intro s hs
     obtain ⟨i, _, hi⟩ := hreach s hs
@@ -65,6 +61,15 @@ theorem probeCheck_sound {cap : Nat} (h : probeCheck cap = true) : ProbeCovers c
   · exact ⟨j - i, by omega, by rw [← his, ← iter_add, show j - i + i = j by omega]; exact hjt⟩
   · refine ⟨cap - i + j, by omega, ?_⟩
     rw [← his, ← iter_add, show cap - i + j + i = j + cap by omega, iter_add, hclose]; exact hjt
+
+theorem probeCheck_sound {cap : Nat} (h : probeCheck cap = true) : ProbeCovers cap := by
+  simp only [probeCheck, Bool.and_eq_true, beq_iff_eq] at h
+  obtain ⟨hclose, hmask⟩ := h
+  have hreach : ∀ t, t < cap → ∃ i, i < cap ∧ iter cap i 0 = t := by
+    intro t ht
+    have := (orbitMask_testBit cap cap 0 0 t).mp (by rw [hmask, Nat.testBit_two_pow_sub_one]; simpa using ht)
+    simpa using this
+  exact probeCovers_of_zero hclose hreach
 
 theorem ProbeCovers.cycle {cap : Nat} (h : ProbeCovers cap) : ProbeCycle cap := h.1
 
